@@ -594,7 +594,10 @@ def relpath_from_inclusion_element(
     inclusion_parsed: Any = parse_element(inclusion, "include_file", {}, {}, context)
     relpath = inclusion_parsed.include_file
     linenum = inclusion_parsed.line_num or LineTracker("unknown", -1)
-    assert not relpath.startswith("/")  # only relative paths
+    if relpath.startswith("/"):  # only relative paths
+        raise exc.DataGenSyntaxError(
+            f"Included file paths must be relative: {relpath}", **linenum._asdict()
+        )
     return Path(relpath), linenum
 
 
